@@ -21,13 +21,13 @@ ASSUMPTIONS = ["graphs are built through the public API (DAGs) or directly on Ci
 
 
 def bounds(tier):
-    return {"dag_nodes": 6, "subset_cap": 2 if tier == "quick" else 4,
+    return {"dag_nodes": 6 if tier == "quick" else 7, "subset_cap": 2 if tier == "quick" else 4,
             "digraph_nodes": 4, "kcuts_k": [1, 2, 3, 4]}
 
 
 def jobs(tier, seed):
     b = bounds(tier)
-    n = 48 if tier == "quick" else 96
+    n = 48 if tier == "quick" else 256
     js = [{"sub": "dag", "chunk": i, "of": n, "n": b["dag_nodes"], "cap": b["subset_cap"]} for i in range(n)]
     js += [{"sub": "digraph", "chunk": i, "of": 4, "n": 4} for i in range(4)]
     js.append({"sub": "dag", "chunk": 1, "of": n, "n": b["dag_nodes"], "cap": b["subset_cap"],
@@ -187,13 +187,15 @@ def run_dag(job, acc):
     it = ((n, e) for n in range(1, job["n"] + 1) for e in space.dags(n))
     for _idx, (n, edges) in space.chunk(it, job["chunk"], job["of"]):
         for tname, kinds, outs in typings(n, edges):
+            if n >= 7 and tname != "plain" and (_idx // job["of"]) % 4:
+                continue  # 7-node DAGs: plain typing for all, the other typings for every 4th graph
             desc, _nm = space.typed_dag_desc(n, edges, kinds, outs)
             case = {"kind": "dag", "desc": desc, "typing": tname}
             c = space.build(desc)
             acc.states += 1
             if edges:
                 acc.nontrivial += 1
-            cap = job["cap"] if n >= 6 else n
+            cap = 1 if n >= 7 else job["cap"] if n == 6 else n
             check_dag(acc, c, case, cap)
             acc.sample(case)
         if acc.out_of_time():
